@@ -73,7 +73,7 @@ macro "arm_tiled" h2:ident he:ident : tactic => `(tactic|
 section
 variable (C : Cfg)
     (recInner : Bytes → Defines → Bool → Bool → Nat → Nat → Except PpError (POut × Defines))
-    (recUsage : Input → Bytes → Bytes → Tree → Defines → Bool → Nat → Nat → Except PpError (Option (Bytes × Option (Bytes × Range) × Defines)))
+    (recUsage : Input → Bytes → Bytes → Tree → Defines → Bool → Bool → Nat → Nat → Except PpError (Option (Bytes × Option (Bytes × Range) × Defines)))
     (inp : Input) (s path : Bytes) (ii sc : Bool) (rd id : Nat) (w2 w3 : WState) (x : Tree)
 
 theorem armNotDirective_tiled (h2 : w2.out.Tiled) (he : armNotDirective C recInner recUsage inp s path ii sc rd id w2 x = .ok w3) : w3.out.Tiled := by
